@@ -2,7 +2,7 @@
 //! behaves like a fresh instance primed with the last window.
 use crate::reflib::*;
 use crate::rsx;
-use yata::core::{Candle, IndicatorConfig, IndicatorInstance, Method, MovingAverageConstructor, PeriodType, ValueType};
+use yata::core::{Action, Candle, IndicatorConfig, IndicatorInstance, Method, MovingAverageConstructor, PeriodType, ValueType};
 use yata::indicators::ParabolicSAR;
 use yata::helpers::Peekable;
 use yata::methods::*;
@@ -317,4 +317,47 @@ pub fn c07_psar_long() {
 		}
 		prev = c;
 	}
+}
+
+/// C10 / C07(a): AwesomeOscillator's consecutive-peak counters (u8, saturating) on an accepted instance with
+/// conseq_peaks = 255: `pre` concrete candles whose oscillator value is a saw-tooth that never crosses zero
+/// (a local extremum every second bar, so the counter passes 255), then `t` symbolic valid candles: no panic
+/// event on any path, and once 255 peaks have been counted every further confirmed peak on that side signals
+pub fn c10_awesome_long() {
+	let pre = rsx::param("pre") as usize;
+	let t = rsx::param("t") as usize;
+	let down = rsx::param("down") != 0;
+	let cfg = yata::indicators::AwesomeOscillator {
+		ma1: yata::helpers::MA::SMA(3),
+		ma2: yata::helpers::MA::SMA(2),
+		source: yata::core::Source::Close,
+		left: 1,
+		right: 1,
+		conseq_peaks: 255,
+	};
+	let base: ValueType = 100000.0;
+	let c0 = Candle { open: base, high: base, low: base, close: base, volume: 1.0 };
+	let mut ind = cfg.init(&c0).unwrap();
+	let mut fired = 0;
+	for i in 0..(pre + t) {
+		let c = if i < pre {
+			// x_i = base + a*i + b*(i mod 2): SMA2 - SMA3 = (3a +- b)/6 alternates without changing sign
+			let a: ValueType = if down { -2.0 } else { 2.0 };
+			let x = base + a * (i as ValueType) + 3.0 * ((i % 2) as ValueType);
+			Candle { open: x, high: x, low: x, close: x, volume: 1.0 }
+		} else {
+			let c = valid_candle_i(i - pre);
+			rsx::assume(c.low > base / 4.0 && c.high < base * 4.0);
+			c
+		};
+		let r = ind.next(&c);
+		rsx::check("ao_long.shape", r.values().len() == 1 && r.signals().len() == 2);
+		if i < pre && i >= 520 {
+			// more than 255 peaks on one side have been confirmed: every second bar confirms another one
+			if r.signal(0) != Action::None {
+				fired += 1;
+			}
+		}
+	}
+	rsx::check("ao_long.signals_after_255_peaks", pre < 560 || fired >= 10);
 }
